@@ -28,6 +28,10 @@ EXPS = [Fr(1), Fr(1), Fr(1), Fr(-1), Fr(2), Fr(-2), Fr(3), Fr(1, 2), Fr(-1, 2)]
 
 
 def plan(tier, seed):
+    return _plan_core(tier, seed) + [{"_label": "suite", "kind": "suite", "tier": tier, "_timeout": 2400}]
+
+
+def _plan_core(tier, seed):
     n = N[tier]
     return [{"_label": f"shard{i}", "seed": seed, "shard": i, "cases": n // 16} for i in range(16)]
 
@@ -279,6 +283,10 @@ def gen_case(r, names):
 
 
 def work(spec, rec):
+    if spec.get("kind") == "suite":
+        harness.run_suite("C07", harness.SUITE_QUICK if spec["tier"] == "quick" else harness.SUITE_FULL, rec)
+        rec.case(("suite", spec["tier"]))
+        return
     r = harness.rng_for("C07", spec["seed"], spec["shard"])
     names = units_ref.available_units()
     if spec["shard"] == 0:
